@@ -1,7 +1,8 @@
 (* C08 property theorems: statements only, each closed by [exact]. *)
 From Boltons Require Import Lib.Prelude Lib.C08_Py Spec.C08_Spec Model.C08_Model Check.C08_Check
   Proofs.C08_Machine Proofs.C08_Tree Proofs.C08_Inject Proofs.C08_Cycle Proofs.C08_Paths
-  Proofs.C08_Copy Proofs.C08_Shared Proofs.C08_Reraise Proofs.C08_Transfer Proofs.C08_Witness.
+  Proofs.C08_Copy Proofs.C08_Shared Proofs.C08_Reraise Proofs.C08_Transfer Proofs.C08_Witness
+  Gen.C08_Src Proofs.C08_Source.
 
 (* The stack machine (work stack + exit sentinels + id registry + new_items_stack
    + path) IS the bottom-up recursion: for every input term (shared and cyclic
@@ -214,3 +215,27 @@ Theorem C08_paths_set_refuted :
                      /\ p <> [KNone] /\ get_path root p <> Ok r.
 Proof. exact set_path_witness. Qed.
 Print Assumptions C08_paths_set_refuted.
+
+(* ---- (T) obligations over Gen/C08_Src.v, regenerated from the source on every run ---- *)
+(* default_enter, as it is written now, traverses exactly what the model's loop
+   enters, with the iterator the model assumes (str/bytes are tested first) *)
+Theorem C08_source_enter : forall t, src_default_enter t = model_enter t.
+Proof. exact source_enter. Qed.
+Print Assumptions C08_source_enter.
+
+(* default_exit, as it is written now and with the attributes the built-in types
+   have now, fills list/set/dict in place and rebuilds tuple/frozenset *)
+Theorem C08_source_exit : forall k,
+  resolve_exit gen_hasattr (ty_of_kind k) (src_default_exit (ty_of_kind k)) = Some (model_exit k).
+Proof. exact source_exit. Qed.
+Print Assumptions C08_source_exit.
+
+Theorem C08_blank_from_exit : forall id k,
+  impl_blank id k = if in_place (model_exit k) then ORef id k else OBlank k.
+Proof. exact blank_from_exit. Qed.
+Print Assumptions C08_blank_from_exit.
+
+Theorem C08_source_visit : forall (ky : key) (v : obj),
+  apply_action oval (Put None None) ky v = Some (src_default_visit ky v).
+Proof. exact source_visit. Qed.
+Print Assumptions C08_source_visit.
